@@ -31,7 +31,8 @@ def clauses(crit, vis, res="result"):
     out.append(f"//@   ensures[C02,C01,C20] ranges: (=> (isRangeV {vis}) (and ((_ is vref) {res}) (= (rty {res}) TY_rangemap) (not (= (rval {res}) null))\n"
                f"//@        (forall ((k Str)) (! (=> (mhas {RM} k) (and (not (= (mget {RM} k) null)) (<= (rid (mget {RM} k)) (alloc)) (rangeKx (deref (mget {RM} k))) (mhas {VF} k)\n"
                f"//@             (=> (psat {crit} d) (inRange (deref (mget {RM} k)) (dget d k))))) :pattern ((mget {RM} k))))))")
-    out.append(f"//@   ensures[C20] normalize: (=> (isNormV {vis}) (or (= {res} vnil) (isCriteria {res})))")
+    ERR = f"(@ (cast (rval {vis}) clover.CriteriaNormalizeVisitor) err)"
+    out.append(f"//@   ensures[C20,C04] normalize: (=> (isNormV {vis}) (and (or (= {res} vnil) (and (isCriteria {res}) (cshape {res}))) (=> (= {res} vnil) (not (= {ERR} vnil))) (=> (not (= (old {ERR}) vnil)) (not (= {ERR} vnil)))))")
     return "\n".join(out)
 
 DOM = "(forall ((f Str)) (! (kx (dget d f)) :pattern ((dget d f))))"
@@ -139,7 +140,7 @@ NOFIELD = """// operand lists are finite trees: a list is not one of its own ele
 //@        (=> (and (= $value (@ c Value)) (isSliceC $value) (or (= (@ c OpType) OP_IN) (= (@ c OpType) OP_CONTAINS)))
 //@            (forall ((j (_ BitVec 64))) (! (=> (bvult j (sllen (lval $value))) (not (isFieldRef (select (st C_interfaceBB) (selemaddr (lval $value) j))))) :pattern ((select (st C_interfaceBB) (selemaddr (lval $value) j)))))))
 """
-for n, ex in (("Unary", "//@   reveal (cshape (box c))\n" + NOFIELD), ("Binary", "//@   reveal (cshape (box c))\n//@   reveal (cshape (@ c C1))\n//@   reveal (cshape (@ c C2))\n"), ("Not", "//@   reveal (cshape (box c))\n//@   reveal (cshape (@ c C))\n")):
+for n, ex in (("Unary", "//@   reveal (cshape (box c))\n//@   reveal-post (cshape result)\n" + NOFIELD), ("Binary", "//@   reveal (cshape (box c))\n//@   reveal (cshape (@ c C1))\n//@   reveal (cshape (@ c C2))\n//@   reveal-post (cshape result)\n"), ("Not", "//@   reveal (cshape (box c))\n//@   reveal (cshape (@ c C))\n//@   reveal-post (cshape result)\n")):
     root_block.append(visit("CriteriaNormalizeVisitor", n, ex))
 root_block.append("""// the range an ordering comparison against a literal confines the field to (absent = nil)
 //@ func unaryCriteriaToRange
